@@ -263,9 +263,16 @@ def cases(draw, plugin=False):
         check_stems = draw(st.lists(st.sampled_from(recplugins.PLUGIN_CHECK_STEMS), min_size=1, max_size=2,
                                     unique=True))
         case["plugin"] = {"field_stems": field_stems, "check_stems": check_stems,
-                          "files": draw(st.sampled_from([1, 1, 2])),
+                          "files": draw(st.sampled_from([1, 1, 2, "two-folders"])),
                           "how": draw(st.sampled_from(["import_plugins", "user-code-after-first-cid"])),
                           "module": draw(st.sampled_from(["myplugins", "c20_recording_plugins"]))}
+        if case["plugin"]["files"] == "two-folders":
+            # fields and checks in files of the SAME name in two plugin folders imported one after the other
+            case["plugin"]["how"] = "import_plugins"
+        elif case["plugin"]["how"] == "import_plugins" and draw(st.integers(0, 2)) == 0:
+            # a plugin file may be called anything - also like a module Python or cutplace have loaded already
+            case["plugin"]["module"] = draw(st.sampled_from(["numbers", "string", "types", "token", "time", "csv",
+                                                             "fields", "checks", "data", "cutplace", "plugins"]))
     for index, kind in enumerate(kinds):
         type_name = draw(st.sampled_from(field_stems)) if plugin else "Rec"
         case["fields"].append(_draw_field(draw, index, kind, fmt, type_name))
@@ -296,6 +303,9 @@ def cases(draw, plugin=False):
             table = _canonical_fixed(table, n_fields)
         run = {"api": api, "mode": draw(st.sampled_from(["raise", "yield", "continue"])), "limit": None,
                "second_close": api != "rows" and draw(st.booleans()), "table": table}
+        if not plugin and draw(st.integers(0, 3)) == 0:
+            # the CID named by the path of its file instead of handed over as an object (as in the README)
+            run["cid_via"] = "path"
         if api != "writer":
             if draw(st.booleans()):
                 run["limit"] = draw(st.integers(0, n_rows + 1))
@@ -554,14 +564,16 @@ def compare_run(case, run, log, max_differences=4):
 
 
 # -- driving the public API (the source of this function is also copied into the subprocess driver) -------------------
-def execute_runs(cutplace, cid, runs, mark):
+def execute_runs(cutplace, cid, runs, mark, cid_path=None):
     """Run the scenarios the way a user of the API would; ``mark`` puts harness markers into the call log."""
     import io
 
     data_error = cutplace.errors.DataError
     outcomes = []
+    shared_cid = cid
     for index, run in enumerate(runs):
         mark("run", index)
+        cid = cid_path if (run.get("cid_via") == "path" and cid_path is not None) else shared_cid
         outcome = {"rejected": 0, "close_error": None, "unexpected": None}
         validator = None
         try:
@@ -691,7 +703,20 @@ def check_case(sub, case):
         sub.fail("C20|reader|%s|extra-call|%s-while-loading-cid" % (case["fmt"], recplugins.LOG[0][0]), case,
                  "calls while the CID was loaded (no examples declared): %r" % (recplugins.LOG[:5],))
     del recplugins.LOG[:]
-    outcomes = execute_runs(cutplace, cid, case["runs"], _mark)
+    folder = None
+    cid_path = None
+    if any(run.get("cid_via") == "path" for run in case["runs"]):
+        import csv
+
+        folder = tempfile.mkdtemp(prefix="c20-")
+        cid_path = os.path.join(folder, "cid.csv")
+        with open(cid_path, "w", encoding="utf-8", newline="") as f:
+            csv.writer(f).writerows(cid_rows(case))
+    try:
+        outcomes = execute_runs(cutplace, cid, case["runs"], _mark, cid_path)
+    finally:
+        if folder:
+            shutil.rmtree(folder, ignore_errors=True)
     logs = split_log(recplugins.LOG, len(case["runs"]))
     del recplugins.LOG[:]
     judge(sub, case, logs, outcomes)
@@ -730,6 +755,8 @@ if case.get("how") == "user-code-after-first-cid":
         importlib.import_module(module_name)
 else:
     interface.import_plugins(sys.argv[2])
+    for folder in case.get("more_folders", []):
+        interface.import_plugins(folder)
 cid = interface.Cid()
 cid.read("c20", case["cid_rows"])
 resolved = {"fields": [[type(f).__name__, type(f).__module__] for f in cid.field_formats],
@@ -747,7 +774,15 @@ def check_plugin_case(sub, case):
     try:
         plugin_folder = os.path.join(folder, "plugins")
         os.mkdir(plugin_folder)
-        if plugin["files"] == 1:
+        more_folders = []
+        if plugin["files"] == "two-folders":
+            sources = {plugin["module"]: recplugins.plugin_source(plugin["field_stems"], [])}
+            second = os.path.join(folder, "more_plugins")
+            os.mkdir(second)
+            more_folders.append(second)
+            with open(os.path.join(second, plugin["module"] + ".py"), "w", encoding="utf-8") as f:
+                f.write(recplugins.plugin_source([], plugin["check_stems"]))
+        elif plugin["files"] == 1:
             sources = {plugin["module"]: recplugins.plugin_source(plugin["field_stems"], plugin["check_stems"])}
         else:
             sources = {plugin["module"]: recplugins.plugin_source(plugin["field_stems"], []),
@@ -761,7 +796,7 @@ def check_plugin_case(sub, case):
         case_path = os.path.join(folder, "case.json")
         with open(case_path, "w", encoding="utf-8") as f:
             json.dump({"cid_rows": cid_rows(case), "runs": case["runs"], "modules": sorted(sources),
-                       "how": plugin.get("how", "import_plugins")}, f)
+                       "how": plugin.get("how", "import_plugins"), "more_folders": more_folders}, f)
         env = dict(os.environ, PYTHONDONTWRITEBYTECODE="1", PYTHONHASHSEED="0")
         env.pop("PYTHONPATH", None)
         try:
@@ -804,7 +839,9 @@ def check_plugin_case(sub, case):
                 sub.fail("C20|plugin|resolve|check", case,
                          "check type %r resolved to %s.%s" % (check["type"], module_name, class_name))
         sub.cls("plugin:subprocess")
-        sub.cls("plugin:files:%d" % plugin["files"])
+        sub.cls("plugin:files:%s" % plugin["files"])
+        sub.cls("plugin:module:%s" % ("own-name" if plugin["module"] in ("myplugins", "c20_recording_plugins")
+                                      else "name-of-a-loaded-module"))
         sub.cls("plugin:how:%s" % plugin.get("how", "import_plugins"))
         judge(sub, case, split_log(log, len(case["runs"])), outcomes)
     finally:
@@ -813,8 +850,8 @@ def check_plugin_case(sub, case):
 
 def run(ctx):
     ctx.hyp("protocol", cases, check_case, ctx.n(8000, 150000))
-    ctx.hyp("plugins", lambda: cases(plugin=True), check_plugin_case, ctx.n(10, 240),
-            workers=ctx.n(1, min(8, ctx.workers)))
+    ctx.hyp("plugins", lambda: cases(plugin=True), check_plugin_case, ctx.n(32, 320),
+            workers=ctx.n(min(4, ctx.workers), min(8, ctx.workers)))
 
 
 def replay(sub, case):
